@@ -92,6 +92,16 @@ def v1_inputs(rng, tier, k=None):
             pool.append(b"PROXY UNKNOWN " + b"\xc3\xa9" * k + pad + b"\r\n")
             pool.append(b"PROXY UNKNOWN " + pad + b"\xe2\x82\xac" * (k * 2 // 3) + b"\r\n")
     pool.append(b"PROXY TCP4 1.2.3.4 5.6.7.8 1 2" + b"\xc3\xa9" * 40 + b"\r\n")
+    # every byte value next to the first CR (before it, two before it, after the LF), at every
+    # alignment modulo 16: word-at-a-time scans for the CR go wrong only on particular neighbours
+    for b in range(256):
+        for pad in (range(16) if (b < 0x20 or b in (0x7f, 0x80, 0x8d, 0xff) or tier != "quick") else (0, 3, 7)):
+            filler = b"a" * pad
+            pool.append(b"PROXY UNKNOWN " + filler + bytes([b]) + b"\r\n")
+            if b < 0x20:
+                pool.append(b"PROXY UNKNOWN " + filler + bytes([b]) + b"a\r\n")
+                pool.append(b"PROXY UNKNOWN " + filler + bytes([b, b]) + b"\r\nrest")
+                pool.append(b"PROXY TCP4 1.2.3.4 5.6.7.8 1 2" + b"\r\n" + filler + bytes([b]))
     for total in (100, 105, 106, 107, 108, 109, 200):
         pool.append(b"x" * total)
         pool.append(b"PROXY UNKNOWN " + b"y" * (total - 14))
